@@ -15,7 +15,9 @@ fn arg_u64(a: &[String], i: usize) -> u64 {
 
 fn main() {
     let args: Vec<String> = std::env::args().collect();
-    std::panic::set_hook(Box::new(|_| {}));
+    if std::env::var("MWH_DEBUG").is_err() {
+        std::panic::set_hook(Box::new(|_| {}));
+    }
     match args.get(1).map(|s| s.as_str()) {
         // mwh run <ops> <obs>
         Some("run") => {
@@ -25,7 +27,8 @@ fn main() {
         }
         // mwh world <backend> <seed> <histories> <events> <out-prefix>
         //   writes <prefix>.ops (contract-level ops), <prefix>.events, <prefix>.impl (observations)
-        Some("world") | Some("matrix") | Some("pages") => {
+        Some("world") | Some("matrix") | Some("pages") | Some("extreme") => {
+            let extreme = args[1] == "extreme";
             let matrix = args[1] == "matrix";
             let pages = args[1] == "pages";
             let backend = &args[2];
@@ -38,7 +41,7 @@ fn main() {
             let mut wobs = String::new();
             for h in 0..n {
                 let hseed = seed.wrapping_mul(1_000_003).wrapping_add(h);
-                let mut g = gen::WorldGen::new(hseed, backend, h);
+                let mut g = if extreme { gen::WorldGen::new_extreme(hseed, backend, h) } else { gen::WorldGen::new(hseed, backend, h) };
                 events.push_str(&format!("== history {} seed {}\n", h, hseed));
                 wobs.push_str(&format!("== history {} seed {}\n", h, hseed));
                 if g.start() {
@@ -49,6 +52,14 @@ fn main() {
                     }
                     let k = len / 2 + g.r.below(len / 2 + 1);
                     for i in 0..k {
+                        if extreme && i % 7 == 3 {
+                            if g.r.chance(50) {
+                                g.extreme_resume();
+                            } else {
+                                g.extreme_admin();
+                            }
+                            g.queries();
+                        }
                         g.step();
                         g.snapshot(&mut wobs);
                         if i % 10 == 9 {
@@ -62,6 +73,9 @@ fn main() {
                         }
                     }
                     g.queries();
+                } else if extreme {
+                    // a refused (or panicking) instantiation: the queries are still sent to the empty store
+                    g.queries_blind();
                 }
                 for l in g.w.ops.iter() {
                     ops.push_str(l);
